@@ -4,11 +4,14 @@ package main
 
 import (
 	"fmt"
+	"strconv"
 	"strings"
 
 	"github.com/llir/llvm/asm"
+	asmenum "github.com/llir/llvm/asm/enum"
 	"github.com/llir/llvm/ir"
 	"github.com/llir/llvm/ir/constant"
+	"github.com/llir/llvm/ir/enum"
 	"github.com/llir/llvm/ir/types"
 )
 
@@ -106,11 +109,45 @@ func core2BuildNamed(a []string) (*ir.Module, map[string]*types.StructType) {
 				panic("harness: trailing junk in global " + e)
 			}
 			g := m.NewGlobalDef(string(unhexArg(f[0])), c)
-			g.Immutable = f[1] == "c"
+			// the kind field may carry the optional keywords of the global variable (M-Whole): `g~<i>,<i>…` / `c~<i>,<i>…`, positions in the model's list
+			// `Whole.kGLead` (linkage 0-8, preemption 9-10, visibility 11-13, DLL storage class 14-15, thread-local model 16-19, unnamed_addr 20-21,
+			// externally_initialized 22)
+			kind, lead, _ := strings.Cut(f[1], "~")
+			g.Immutable = kind == "c"
+			if lead != "" {
+				for _, ps := range strings.Split(lead, ",") {
+					i, err := strconv.Atoi(ps)
+					if err != nil || i < 0 || i >= len(c2GLead) {
+						panic("harness: bad global keyword position " + ps)
+					}
+					kw := c2GLead[i]
+					switch {
+					case i < 9:
+						g.Linkage = asmenum.LinkageFromString(kw)
+					case i < 11:
+						g.Preemption = asmenum.PreemptionFromString(kw)
+					case i < 14:
+						g.Visibility = asmenum.VisibilityFromString(kw)
+					case i < 16:
+						g.DLLStorageClass = asmenum.DLLStorageClassFromString(kw)
+					case i < 20:
+						g.TLSModel = []enum.TLSModel{enum.TLSModelGeneric, enum.TLSModelInitialExec, enum.TLSModelLocalDynamic, enum.TLSModelLocalExec}[i-16]
+					case i < 22:
+						g.UnnamedAddr = asmenum.UnnamedAddrFromString(kw)
+					default:
+						g.ExternallyInitialized = true
+					}
+				}
+			}
 		}
 	}
 	return m, named
 }
+
+// the optional keywords of a global variable in the order of the model's list `Whole.kGLead`
+var c2GLead = []string{"appending", "available_externally", "common", "internal", "linkonce", "linkonce_odr", "private", "weak", "weak_odr",
+	"dso_local", "dso_preemptable", "default", "hidden", "protected", "dllexport", "dllimport",
+	"thread_local", "thread_local(initialexec)", "thread_local(localdynamic)", "thread_local(localexec)", "unnamed_addr", "local_unnamed_addr", "externally_initialized"}
 
 func init() {
 	reg("core2.print", func(a []string) string { return hexOut([]byte(core2Build(a).String())) })
